@@ -1002,10 +1002,9 @@ class ReducedDensityMatrixPropagator(MatrixData, Saveable):
                     rho2 = rho2 + rho1
                 rho1 = rho2    
 
-                if indxR < cutoff_indx - 1:                      
-                    indxR += stride
-                else:
-                    indxR = cutoff_indx
+                # beyond the cut-off (or the end of the tensor's time axis)
+                # we keep using the last available value of the tensor
+                indxR = min(indxR + stride, cutoff_indx - 1)
 
                 
             pr.data[indx,:,:] = rho2
@@ -1207,10 +1206,9 @@ class ReducedDensityMatrixPropagator(MatrixData, Saveable):
                     
                 rho1 = rho2    
 
-                if indxR < cutoff_indx - 1:                      
-                    indxR += stride
-                else:
-                    indxR = cutoff_indx
+                # beyond the cut-off (or the end of the tensor's time axis)
+                # we keep using the last available value of the tensor
+                indxR = min(indxR + stride, cutoff_indx - 1)
 
                 
             pr.data[indx,:,:] = rho2
@@ -1337,10 +1335,9 @@ class ReducedDensityMatrixPropagator(MatrixData, Saveable):
                     rho2 = rho2 + rho1
                 rho1 = rho2    
 
-                if indxR < cutoff_indx - 1:                      
-                    indxR += stride
-                else:
-                    indxR = cutoff_indx
+                # beyond the cut-off (or the end of the tensor's time axis)
+                # we keep using the last available value of the tensor
+                indxR = min(indxR + stride, cutoff_indx - 1)
 
                 
             pr.data[indx,:,:] = rho2
